@@ -232,32 +232,93 @@ def header_nonwrapping(F, hty):
     return c05.header_guarantee(None, F, hty)
 
 
-def check_ref_from_slice(ctx, F, hty):
-    lab = "ref_from_slice<%s>" % short(hty)
-    inst = F.insts.get("multiboot2_common::DynSizedStructure::<%s>::ref_from_slice" % hty)
-    if inst is None:
-        ctx.fail("ANCHOR", lab, "%s is instantiated" % lab, "", "missing")
-        return
-    A = an.of(F, inst)
-    ex = CH.exits(A)
+def is_ref_from_slice_of(ex, hty, src):
+    """the exits `ex` are those of  ref_from_bytes(BytesRef::try_from(src)?)  with the error passed through unchanged
+    (ref_from_slice itself, or its body written out / spliced in place, e.g. `try_from(src).and_then(ref_from_bytes)`)"""
     tf = "<multiboot2_common::bytes_ref::BytesRef<'_, %s> as core::convert::TryFrom<&[u8]>>::try_from" % hty
     rfb = "multiboot2_common::DynSizedStructure::<%s>::ref_from_bytes" % hty
-    arg = ("arg", 1, "&[u8]")
-
-    TF = ("call", tf, (arg,))
-    good = len(ex) == 2
+    TF = G.N(("call", tf, (src,)))
+    if len(ex) != 2:
+        return False
     res = [e for e in ex if e.kind == "Err"]
     cont = [e for e in ex if G.N(e.val)[0] == "call" and G.N(e.val)[1] == rfb]
     g1 = g2 = False
     if len(res) == 1:
         # the error of try_from is returned unchanged (same error type: no conversion call survives inlining)
-        g1 = G.N(res[0].payload) == CH.payload_of(G.N(TF), 1) and CH.own_is_variant(res[0], G.N(TF), 1)
+        g1 = G.N(res[0].payload) == CH.payload_of(TF, 1) and CH.own_is_variant(res[0], TF, 1)
     if len(cont) == 1:
         v = G.N(cont[0].val)
-        g2 = v[2] == (CH.payload_of(G.N(TF), 0),) and CH.guarded_by_variant(cont[0].facts, G.N(TF), 0)
-    ctx.check(good and g1 and g2, "B5", lab,
+        g2 = v[2] == (CH.payload_of(TF, 0),) and CH.guarded_by_variant(cont[0].facts, TF, 0)
+    return g1 and g2
+
+
+def check_ref_from_slice(ctx, F, hty):
+    lab = "ref_from_slice<%s>" % short(hty)
+    inst = F.insts.get("multiboot2_common::DynSizedStructure::<%s>::ref_from_slice" % hty)
+    if inst is None:
+        # not instantiated for this header type (nothing calls it): nothing to decide; its callers' premises
+        # (C02/C10 ref_from_ptr) then have to show the same composition in place
+        ctx.ok("B5", lab, "ref_from_slice::<%s> is not instantiated in the three crates" % short(hty), "", how="no instance", nontrivial=False)
+        return
+    A = an.of(F, inst)
+    ex = CH.exits(A)
+    ok = is_ref_from_slice_of(ex, hty, ("arg", 1, "&[u8]"))
+    ctx.check(ok, "B5", lab,
               "ref_from_slice(bytes) = ref_from_bytes(BytesRef::try_from(bytes)?) with the error passed through unchanged",
               A.site(), how="exits: %s" % [G.show(e.val) for e in ex], why="exits: %s" % [G.show(e.val) for e in ex])
+
+
+def residue_eval(t, r, m=ALIGN):
+    """value of the integer term t over the single argument x = m*q + r as (coefficient of q, constant), or None"""
+    k = t[0]
+    if k == "arg":
+        return (m, r)
+    if k == "c":
+        return (0, t[1])
+    if k in ("zext",):
+        return residue_eval(t[1], r, m)
+    if k == "cast" and t[1] == "IntToInt":
+        return residue_eval(t[2], r, m)
+    if k == "bin":
+        op = t[1]
+        a, b = residue_eval(t[2], r, m), residue_eval(t[3], r, m)
+        if a is None or b is None:
+            return None
+        if op in ("Add", "AddUnchecked"):
+            return (a[0] + b[0], a[1] + b[1])
+        if op in ("Sub", "SubUnchecked"):
+            return (a[0] - b[0], a[1] - b[1])
+        if op in ("Mul", "MulUnchecked") and (a[0] == 0 or b[0] == 0):
+            c_, v_ = (a, b) if a[0] == 0 else (b, a)
+            return (v_[0] * c_[1], v_[1] * c_[1])
+        if b[0] == 0 and b[1] > 0 and a[1] >= 0:
+            d = b[1]
+            if op == "Rem" and a[0] % d == 0:
+                return (0, a[1] % d)
+            if op == "Div" and a[0] % d == 0:
+                return (a[0] // d, a[1] // d)
+            if op == "BitAnd":
+                if (d + 1) & d == 0 and a[0] % (d + 1) == 0:
+                    return (0, a[1] % (d + 1))
+                inv = (~d) & ((1 << 64) - 1)
+                if (inv + 1) & inv == 0 and a[0] % (inv + 1) == 0:
+                    return (a[0], a[1] - a[1] % (inv + 1))
+        return None
+    if k == "numfn" and t[1] == "next_multiple_of":
+        a, b = residue_eval(t[2][0], r, m), residue_eval(t[2][1], r, m)
+        if a is None or b is None or b[0] != 0 or b[1] <= 0 or a[0] % b[1] != 0 or a[1] < 0:
+            return None
+        return (a[0], a[1] + (b[1] - a[1] % b[1]) % b[1])
+    if k == "ite":
+        c = t[1]
+        if c[0] == "cmp":
+            x, y = residue_eval(c[2], r, m), residue_eval(c[3], r, m)
+            if x is None or y is None or x[0] != 0 or y[0] != 0:
+                return None
+            truth = {"Eq": x[1] == y[1], "Ne": x[1] != y[1], "Lt": x[1] < y[1], "Le": x[1] <= y[1], "Gt": x[1] > y[1], "Ge": x[1] >= y[1]}[c[1]]
+            return residue_eval(t[2] if truth else t[3], r, m)
+        return None
+    return None
 
 
 def rounding_kernel(ctx, F, rule="B6"):
@@ -286,6 +347,11 @@ def rounding_kernel(ctx, F, rule="B6"):
                 ok = lf.key() == want.key() or lf.key() == want2.key()
             except Exception:
                 ok = False
+    if not ok and rt is not None:
+        # any other spelling: evaluate the return term on x = 8q + r for each residue r (affine in q); it must be 8q + 8*ceil(r/8)
+        res = [residue_eval(G.N(rt), r_) for r_ in range(ALIGN)]
+        ok = all(v is not None and v == (ALIGN, 0 if r_ == 0 else ALIGN) for r_, v in enumerate(res))
+        how = "residue classes x = 8q + r, r = 0..7: %s" % res
     ctx.check(ok, rule, "increase_to_alignment",
               "increase_to_alignment(x) = x + 7 - ((x + 7) mod 8): a multiple of 8 in [x, x+7], hence the least one >= x "
               "(no overflow for x < 2^32 on a 64-bit target)", A.site(), how=how, why=how)
